@@ -291,6 +291,9 @@ class Contour(BaseObject):
         self._clear(postNotification=False)
         # set the points back into this contour
         self._points = otherContour._points
+        # the cached area still describes the old direction:
+        # drop it so that the new direction is reported
+        self.destroyRepresentation("defcon.contour.area")
         # post a notification
         self.postNotification("Contour.WindingDirectionChanged", data=dict(oldValue=oldDirection, newValue=self.clockwise))
         self.postNotification("Contour.PointsChanged")
